@@ -3,6 +3,7 @@
 package v2
 
 import (
+	"crypto/sha256"
 	"errors"
 	"time"
 
@@ -400,6 +401,71 @@ func VerifC30SessionV2() {
 		if a.calls == 1 && a.ok[0] && cur > exp {
 			vrt.Assert(errors.Is(err, apistatus.ErrSessionTokenExpired), "an expired V2 session token is reported as expired")
 		}
+		vrt.Reach("rejected")
+	}
+}
+
+// VerifC30SharedCache: the sessions cache is shared with object
+// authentication (internal/crypto.AuthenticateObject), which stores a token
+// under the hash of its encoding after the signature check only. Whatever that
+// path has stored, a request-level token is honoured only within its validity
+// period (V1) and only with a valid delegation chain (V2: the delegate's issuer
+// must be a subject of the origin token).
+func VerifC30SharedCache() {
+	c30installAuth()
+	nm := &c30nm{epoch: vrt.U64("currentEpoch")}
+	const base = 1_700_000_000
+	b := c30service(nm, time.Unix(base+3, 0))
+	if vrt.Bool("v2Token") {
+		mk := func(issuer byte, subject byte, origin *sessionv2.Token) sessionv2.Token {
+			var t sessionv2.Token
+			t.SetVersion(sessionv2.TokenCurrentVersion)
+			t.SetIssuer(c30usr(issuer))
+			_ = t.SetSubjects([]sessionv2.Target{sessionv2.NewTargetUser(c30usr(subject))})
+			cx, err := sessionv2.NewContext(c30cnr(1), []sessionv2.Verb{sessionv2.VerbObjectGet})
+			vrt.Assume(err == nil)
+			_ = t.SetContexts([]sessionv2.Context{cx})
+			t.SetIat(time.Unix(base+1, 0))
+			t.SetNbf(time.Unix(base+1, 0))
+			t.SetExp(time.Unix(base+9, 0))
+			if origin != nil {
+				t.SetOrigin(origin)
+			}
+			t.AttachSignature(neofscrypto.NewSignatureFromRawKey(neofscrypto.ECDSA_DETERMINISTIC_SHA256, []byte{2, 1}, []byte{9}))
+			return t
+		}
+		origin := mk(1, 2, nil)
+		delegate := byte(2 + vrt.Choice("delegateIssuer", 2)) // 2: the origin's subject, 3: a stranger
+		tok := mk(delegate, 4, &origin)
+		m := tok.ProtoMessage()
+		mb := make([]byte, m.MarshaledSize())
+		m.MarshalStable(mb)
+		if vrt.Bool("storedByObjectAuthentication") {
+			_, _ = b.sessionTokenCommonCheckCache.AuthenticateTokenV2(sha256.Sum256(mb), func() (sessionv2.Token, error) { return tok, nil })
+		}
+		_, err := b.VerifySessionTokenMessage(m, sessionv2.VerbObjectGet, c30cnr(1))
+		if err == nil {
+			vrt.Assert(delegate == 2, "a delegated V2 token whose issuer is not a subject of the origin token is rejected, whatever the sessions cache holds")
+			vrt.Reach("accepted")
+		} else {
+			vrt.Reach("rejected")
+		}
+		return
+	}
+	exp, nbf, iat := uint64(20), uint64(10), uint64(12)
+	m := c30sessionV1Msg(exp, nbf, iat, int32(session.VerbObjectGet), 1, nil)
+	mb := make([]byte, m.MarshaledSize())
+	m.MarshalStable(mb)
+	if vrt.Bool("storedByObjectAuthentication") {
+		var tok session.Object
+		vrt.Assume(tok.FromProtoMessage(m) == nil)
+		_, _ = b.sessionTokenCommonCheckCache.AuthenticateTokenV1(sha256.Sum256(mb), func() (session.Object, error) { return tok, nil })
+	}
+	_, err := b.VerifySessionV1TokenMessage(m, session.VerbObjectGet, c30cnr(1), oid.ID{})
+	if err == nil {
+		vrt.Assert(nbf <= nm.epoch && iat <= nm.epoch && nm.epoch <= exp, "a session token outside its validity period is rejected, whatever the sessions cache holds")
+		vrt.Reach("accepted")
+	} else {
 		vrt.Reach("rejected")
 	}
 }
